@@ -36,7 +36,7 @@ VARIABLES kind,   \* "G": the input is the graph (n, w);  "D": the input is the 
           n, w,   \* number of nodes and weight vector of the graph (kind "G")
           deg,    \* the degree sequence of the input: derived from (n, w) in Init for kind "G"
                   \* (DegDef below), the input itself for kind "D"; frozen
-          phase
+          phase   \* "in": input chosen;  "out": evaluated (and printed)
 vars == <<kind, n, w, deg, phase>>
 
 -----------------------------------------------------------------------------
